@@ -2,6 +2,7 @@ package rules
 
 import (
 	"fmt"
+	"go/token"
 	"go/types"
 
 	"golang.org/x/tools/go/ssa"
@@ -519,14 +520,14 @@ func runC06(c *core.Ctx) {
 		isReader := func(v ssa.Value) bool { return extractOf(v, lf.opener, 0) }
 		// decoder calls
 		var chooser *ssa.Call
-		for _, ci := range core.Calls(fn) {
+		for _, ci := range core.CallsR(fn) {
 			if fieldFuncCall(ci, "LinkSystem", "DecoderChooser") {
 				chooser = core.CallValue(ci)
 			}
 		}
 		var decCalls []*ssa.Call
 		if chooser != nil {
-			for _, ci := range core.Calls(fn) {
+			for _, ci := range core.CallsR(fn) {
 				cv := core.CallValue(ci)
 				if cv != nil && !cv.Call.IsInvoke() && extractOf(cv.Call.Value, chooser, 0) {
 					decCalls = append(decCalls, cv)
@@ -545,17 +546,15 @@ func runC06(c *core.Ctx) {
 				c.Undecided(key+"#decoder-args", p.Pos(dc.Pos()), "decoder call shape not understood")
 				continue
 			}
-			tee, ok := core.Strip(dc.Call.Args[1]).(*ssa.Call)
+			tee, ok := lf.rg.Canon(dc.Call.Args[1]).(*ssa.Call)
 			teeOK := ok && core.IsPkgFunc(tee, "io", "TeeReader") && isReader(tee.Call.Args[0]) && isHasher(lf, tee.Call.Args[1])
 			c.Check(teeOK, key+"#tee", p.Pos(dc.Pos()), "decoder reads io.TeeReader(storage reader, compared hasher)", "the decoder's input is not io.TeeReader(storage reader, H) with H the hasher that is compared")
 			// drain on failure
 			nilEdges := map[core.Edge]bool{}
-			for _, b := range fn.Blocks {
-				if ifi := core.BlockIf(b); ifi != nil {
-					if s, ok := core.NilSucc(ifi, func(v ssa.Value) bool { return core.Strip(v) == ssa.Value(dc) }); ok {
-						nilEdges[core.Edge{From: b, Succ: s}] = true
-					}
-				}
+			for e := range core.EdgesWhere(fn, func(r core.Rel) bool {
+				return r.Op == token.EQL && core.SameValue(r.X, dc) && core.IsNilConst(r.Y)
+			}) {
+				nilEdges[e] = true
 			}
 			isDrain := func(in ssa.Instruction) bool {
 				ci, ok := in.(*ssa.Call)
@@ -573,7 +572,7 @@ func runC06(c *core.Ctx) {
 			// LoadRaw style: buffer discipline
 			var buf *ssa.Alloc
 			var copyCall *ssa.Call
-			for _, ci := range core.Calls(fn) {
+			for _, ci := range core.CallsR(fn) {
 				if cv := core.CallValue(ci); cv != nil && core.IsPkgFunc(ci, "io", "Copy") && isReader(cv.Call.Args[1]) {
 					if al, ok := core.Strip(cv.Call.Args[0]).(*ssa.Alloc); ok {
 						buf, copyCall = al, cv
@@ -589,7 +588,7 @@ func runC06(c *core.Ctx) {
 				return ok && core.IsMethod(cv, "bytes", "Buffer", "Bytes") && core.Receiver(cv) == ssa.Value(buf)
 			}
 			var writes []*ssa.Call
-			for _, ci := range core.Calls(fn) {
+			for _, ci := range core.CallsR(fn) {
 				if cv := core.CallValue(ci); cv != nil && core.IsMethodNamed(ci, "Write") && isHasher(lf, core.Receiver(ci)) {
 					writes = append(writes, cv)
 				}
